@@ -177,8 +177,22 @@ func init() {
 	register(&PropCheck{
 		ID:   "C14",
 		Dirs: []string{"z80"},
-		Jobs: func(tier string, seed int64) []Job { return stepJobs(allEncodings(), "VStep") },
+		Jobs: func(tier string, seed int64) []Job {
+			jobs := stepJobs(allEncodings(), "VStep")
+			for k := 1; k <= 3; k++ {
+				jobs = append(jobs, Job{Dir: "z80", Harness: "VC14Halted", Params: []int{k}, Label: fmt.Sprintf("VC14Halted/k%d", k)})
+			}
+			for _, op := range []int{0xb0, 0xb8, 0xb1, 0xb9, 0xb2, 0xba, 0xb3, 0xbb} {
+				for n := 2; n <= 3; n++ {
+					jobs = append(jobs, Job{Dir: "z80", Harness: "VC14BlockRepeat", Params: []int{op, n}, Label: fmt.Sprintf("VC14BlockRepeat/ed%02x/n%d", op, n), MaxForks: 256})
+				}
+			}
+			return jobs
+		},
 		Only: func(job Job, a string) bool {
+			if job.Harness != "VStep" {
+				return true
+			}
 			if inSet(a, "R", "I", "unsupported") {
 				return true
 			}
@@ -669,6 +683,7 @@ func init() {
 				mk("VC18Fn9", n)
 			}
 			mk("VC18Fn9Lemma")
+			mk("VC18Seq")
 			mk("VC18WarmBoot")
 			mk("VC18IO")
 			return jobs
